@@ -346,4 +346,28 @@ def idEnv (i : FileId) (s : String) : Option Bool :=
 def entryG (ops : List String) (lib : List Nat) (run : Nat) (f : File) : Option (File × Option Err) :=
   if ops == ["collect", "process"] then some (runSteps lib run f (collect lib f)) else none
 
+/-! ## the link group of a converted alias range dimension -/
+
+inductive LinkVal where
+  | freshId                  -- `nix.util.create_id()`
+  | text (s : String)
+  | ints (l : List Int)
+  | now                      -- the time stamp taken in this conversion
+  deriving DecidableEq, Repr
+
+def findLinkVal (attrs : List (String × LinkVal)) (k : String) : Option LinkVal :=
+  (attrs.find? (·.1 == k)).map (·.2)
+
+/-- the link group read off the source: its five attributes, and its single member named like the array's id
+(`link[daid] = parentda`, operation `target`) -/
+def newLinkG (attrs : List (String × LinkVal)) (ops : List String) (run : Nat) (daid : String) : Option Link :=
+  match findLinkVal attrs "entity_id", findLinkVal attrs "data_object_type", findLinkVal attrs "index",
+        findLinkVal attrs "created_at", findLinkVal attrs "updated_at" with
+  | some .freshId, some (.text t), some (.ints ix), some .now, some .now =>
+    if attrs.length == 5 && ops.contains "target" then
+      some { id := .fresh run, created := .now run, updated := .now run, dataObjectType := t, index := ix,
+             target := daid }
+    else none
+  | _, _, _, _, _ => none
+
 end Nix.Upgrade.Shape
